@@ -674,6 +674,12 @@ def sweep_mazes(ctx, n_adj, n_path, gmax):
     for k in range(n_adj):
         n = [4, 3][k] if k < 2 else ctx.rng.randrange(2, gmax + 1)
         adj_m.append(gen_lattice(ctx, n, cyclic=(k % 2 == 0)))
+    # the same kind of maze with its connection structure stored as 0/1 INTEGERS (np.unpackbits output, a 0/1 literal, astype(int8)):
+    # the library accepts it and treats it as the same maze (== and hash); its tokens must encode it all the same
+    from maze_dataset import LatticeMaze
+    for dt in (["uint8"] if n_adj <= 2 else ["uint8", "int8", "int64"]):
+        m0 = gen_lattice(ctx, 3, cyclic=True)
+        adj_m.append(LatticeMaze(connection_list=np.asarray(m0.connection_list).astype(dt)))
     for k in range(n_path):
         n = 5 if k < 3 else ctx.rng.randrange(2, gmax + 1)
         m = gen_lattice(ctx, n, cyclic=(k % 2 == 0))
